@@ -348,6 +348,17 @@ def run_chain(rng, counters, violations):
                     if not (np.shape(got) == np.shape(want) and np.array_equal(got, want, equal_nan=True)):
                         violations.append({"what": "C14 column expression %s: %s, numpy gives %s" % (desc, got, want), "log": list(log)})
                         return derived_ok
+                    if len(src) and np.ndim(want) == 1:
+                        # the same expression with a row selector: t[expr, position]
+                        kpos = rng.randrange(len(src))
+                        try:
+                            cell = src[e, kpos]
+                        except Exception as exc:
+                            violations.append({"what": "C14 %s with row %d raised %s: %s" % (desc, kpos, type(exc).__name__, str(exc)[:100]), "log": list(log)})
+                            return derived_ok
+                        if not (cell == want[kpos] or (cell != cell and want[kpos] != want[kpos])):
+                            violations.append({"what": "C14 %s with row %d gives %r, numpy gives %r" % (desc, kpos, cell, want[kpos]), "log": list(log)})
+                            return derived_ok
                     if e not in sub._col_names or not np.array_equal(sub._data[e], want, equal_nan=True):
                         violations.append({"what": "C14 cols[%r]: column %s, numpy gives %s" % (e, sub._data.get(e), want), "log": list(log)})
                         return derived_ok
